@@ -1,6 +1,8 @@
 import DirectVerif.Model.MaskBudget
 import DirectVerif.Lemmas.C07
 import DirectVerif.Lemmas.C07Equi
+import DirectVerif.Model.C07Magic
+import DirectVerif.Lemmas.C07Magic
 /-!
 # C07 — the realised sampling budget matches the requested acceleration
 
@@ -168,6 +170,136 @@ example : |(countTrue [true, false, true, true, false, true] : ℚ) - 7 / 2| ≤
     (by norm_num [countTrue]) (by decide +kernel)
 /-- the tie `x − L − 1 = 1/2` attains the bound `1/2` -/
 example : gaussianRequest ((27 : ℚ) / 2) 12 = 0 := by decide +kernel
+
+
+/-! ### Magic (offset-sampling) line masks
+
+The Magic generators round the adjusted acceleration to an integer, so they are **not** judged against
+`N / R` (see `magic_deviates_by_design`).  What they realise is characterised exactly and bracketed, so a
+change of their arithmetic (offsets, halves, rounding, the union with the ACS block) breaks a theorem, a
+bridge lemma or the correspondence on counts. -/
+
+/-- **exact count of a Magic frame**: `#ACS` plus the comb points of the two half-rows that fall outside the
+ACS block — for every width, ACS size `1 ≤ L ≤ N`, integer step `adj ≥ 1` and offset -/
+theorem magic_count_formula (N L adj off : Nat) (hL : 1 ≤ L) (hLN : L ≤ N) :
+    magicCount N L adj off = magicCountFormula N L adj off := by
+  rw [magicCount_halves N L adj off hL hLN]
+  have hpad0 : 0 ≤ acsPad (N : Int) (L : Int) := by unfold acsPad; omega
+  have hneg : magicNegIn N L ≤ N / 2 := by unfold magicNegIn; omega
+  have hpos : magicPosIn N L ≤ N - N / 2 := by unfold magicPosIn acsPad; omega
+  have hsum : magicNegIn N L + magicPosIn N L = L := by unfold magicNegIn magicPosIn acsPad; omega
+  rw [countP_prefix_or _ _ _ hneg, countP_prefix_or _ _ _ hpos]
+  have c : ∀ o x, (List.range x).countP (fun i => combAt o adj i) = strideCount o adj x := fun o x => countP_comb o adj x
+  rw [c, c, c, c]
+  unfold magicCountFormula
+  have hp : (magicPosLen N).toNat = N - N / 2 := by unfold magicPosLen; omega
+  have hn : (magicNegLen N).toNat = N / 2 := by unfold magicNegLen; omega
+  rw [hp, hn]
+  omega
+
+/-- the capped ACS request is at least one column and never more than the target (or 1) -/
+theorem magic_low_bounds (l t : Int) : 1 ≤ magicLow l t ∧ magicLow l t ≤ max t 1 := by
+  unfold magicLow; omega
+
+/-- the two comb offsets are at most `offset + 2` -/
+theorem magic_offsets_le (off : Nat) :
+    (magicOffPos off).toNat ≤ off + 2 ∧ (magicOffNeg off).toNat ≤ off + 2 ∧ 1 ≤ (magicOffPos off).toNat := by
+  unfold magicOffPos magicOffNeg
+  split_ifs <;> omega
+
+/-- **bracket of the Magic budget**: with `d = count − #ACS` non-ACS columns sampled,
+`adj·d ≤ (N − L) + 2·(adj − 1)` and `(N − L) ≤ adj·d + 2·(adj + 1)` — the comb of step `adj` covers the
+`N − L` non-ACS columns up to one period per half-row (plus the offset head-room of at most `adj + 1`) -/
+theorem magic_budget_bounds (N L adj off : Nat) (hL : 1 ≤ L) (hLN : L ≤ N) (hadj : 1 ≤ adj) (hoff : off < adj) :
+    adj * magicCount N L adj off ≤ adj * L + (N - L) + 2 * (adj - 1) ∧
+    adj * L + (N - L) ≤ adj * magicCount N L adj off + 2 * (adj + 1) := by
+  rw [magic_count_formula N L adj off hL hLN]
+  unfold magicCountFormula
+  have hp : (magicPosLen N).toNat = N - N / 2 := by unfold magicPosLen; omega
+  have hn : (magicNegLen N).toNat = N / 2 := by unfold magicNegLen; omega
+  rw [hp, hn]
+  have hneg : magicNegIn N L ≤ N / 2 := by unfold magicNegIn; omega
+  have hpos : magicPosIn N L ≤ N - N / 2 := by unfold magicPosIn acsPad; omega
+  have hsum : magicNegIn N L + magicPosIn N L = L := by unfold magicNegIn magicPosIn acsPad; omega
+  obtain ⟨o1, o2, _⟩ := magic_offsets_le off
+  obtain ⟨p1, p2⟩ := strideCount_window (magicOffPos off).toNat adj (magicPosIn N L) (N - N / 2) hadj hpos
+  obtain ⟨n1, n2⟩ := strideCount_window (magicOffNeg off).toNat adj (magicNegIn N L) (N / 2) hadj hneg
+  have m1 : max (adj - 1) ((magicOffPos off).toNat - magicPosIn N L) ≤ adj + 1 := by omega
+  have m2 : max (adj - 1) ((magicOffNeg off).toNat - magicNegIn N L) ≤ adj + 1 := by omega
+  rw [Nat.mul_add, Nat.mul_add]
+  constructor <;> omega
+
+/-- the same bracket over ℚ: the number of non-ACS columns sampled is `(N − L)/adj` up to `2 + 2/adj` -/
+theorem magic_budget_abs (N L adj off : Nat) (hL : 1 ≤ L) (hLN : L ≤ N) (hadj : 1 ≤ adj) (hoff : off < adj) :
+    |(magicCount N L adj off : ℚ) - ((L : ℚ) + ((N : ℚ) - L) / adj)| ≤ 2 + 2 / (adj : ℚ) := by
+  obtain ⟨h1, h2⟩ := magic_budget_bounds N L adj off hL hLN hadj hoff
+  have ha : (0 : ℚ) < (adj : ℚ) := by exact_mod_cast hadj
+  have e1 : ((adj * magicCount N L adj off : ℕ) : ℚ) ≤ ((adj * L + (N - L) + 2 * (adj - 1) : ℕ) : ℚ) := by exact_mod_cast h1
+  have e2 : ((adj * L + (N - L) : ℕ) : ℚ) ≤ ((adj * magicCount N L adj off + 2 * (adj + 1) : ℕ) : ℚ) := by exact_mod_cast h2
+  push_cast [Nat.cast_sub hLN, Nat.cast_sub hadj] at e1 e2
+  rw [abs_le]
+  constructor
+  · rw [le_sub_iff_add_le, ← sub_le_iff_le_add']
+    have : ((L : ℚ) + ((N : ℚ) - L) / adj) - (2 + 2 / (adj : ℚ)) = ((adj : ℚ) * L + (N - L) - 2 * (adj + 1)) / adj := by
+      field_simp; ring
+    rw [sub_le_iff_le_add', this, div_le_iff₀ ha]
+    nlinarith
+  · rw [sub_le_iff_le_add']
+    have : ((L : ℚ) + ((N : ℚ) - L) / adj) + (2 + 2 / (adj : ℚ)) = ((adj : ℚ) * L + (N - L) + 2 * (adj + 1)) / adj := by
+      field_simp; ring
+    rw [this, le_div_iff₀ ha]
+    nlinarith
+
+/-- a call whose ACS block uses up the budget (`adjusted_acceleration = 0`) raises in `rng.randint(0, high=0)` -/
+theorem magic_frame_rejects (N lRaw : Int) (R : ℚ) (off : Int) (h : (magicParams N lRaw R).2.2 ≤ 0) :
+    magicFrame N lRaw R off = .error "ValueError" := by
+  unfold magicFrame
+  simp only [h, if_true]
+
+/-- the whole arithmetic of a call: whenever a frame is produced its count is the closed form in the call's own
+`(target, num_low_freqs, adjusted_acceleration)` -/
+theorem magic_frame_count (N lRaw : Int) (R : ℚ) (off : Int) (m : List Bool) (hN : 1 ≤ N)
+    (hcap : (magicParams N lRaw R).2.1 ≤ N) (h : magicFrame N lRaw R off = .ok m) :
+    countTrue m = magicCountFormula N.toNat (magicParams N lRaw R).2.1.toNat (magicParams N lRaw R).2.2.toNat off.toNat := by
+  unfold magicFrame at h
+  split_ifs at h with hadj
+  simp only [Except.ok.injEq] at h
+  subst h
+  have hL := (magic_low_bounds lRaw (magicTarget N R)).1
+  have hL' : 1 ≤ (magicParams N lRaw R).2.1 := hL
+  exact magic_count_formula _ _ _ _ (by omega) (by omega)
+
+/-- the target never exceeds the width for accelerations ≥ 1 -/
+theorem magic_target_le (N : Int) (R : ℚ) (hN : 0 ≤ N) (hR : 1 ≤ R) : magicTarget N R ≤ N := by
+  unfold magicTarget
+  have hq : (N : ℚ) / R ≤ N := by
+    have : (0 : ℚ) ≤ (N : ℚ) := by exact_mod_cast hN
+    exact div_le_self this hR
+  have h1 := rnd_floor_or ((N : ℚ) / R)
+  have hfl : ((N : ℚ) / R).floor ≤ N := by
+    rw [floor_eq]; exact Int.floor_le_iff.mpr (by push_cast; linarith)
+  rcases h1 with h | h
+  · rw [h]; exact hfl
+  · -- rounding up happens only when the fractional part is ≥ 1/2, impossible at floor = N
+    rw [h]
+    by_contra hc
+    have hfN : ((N : ℚ) / R).floor = N := by omega
+    have := floor_le' ((N : ℚ) / R)
+    have hfrac : (N : ℚ) / R - ((N : ℚ) / R).floor ≤ 0 := by rw [hfN]; linarith
+    unfold roundHalfEven at h
+    split_ifs at h with a b c <;> first | omega | linarith
+
+/-- **Magic deviates from `N / R` by design** (not a defect; inherited from fastMRI): 400 columns, `R = 4`, 32 ACS
+columns → target 100, `adjusted_acceleration = round(400 / 68) = 6`, and offset 0 realises 94 columns, 6 short -/
+theorem magic_deviates_by_design :
+    magicParams 400 32 4 = (100, 32, 6) ∧ magicFrame 400 32 4 0 = .ok (magicMask 400 32 6 0) ∧
+    magicCount 400 32 6 0 = 94 := by
+  refine ⟨by decide +kernel, by decide +kernel, by decide +kernel⟩
+
+example : magicCountFormula 400 32 6 0 = 94 := by decide +kernel
+/-- hypotheses of `magic_budget_bounds` are satisfiable, and the bracket is tight on the upper side:
+`N = 12`, `L = 2`, `adj = 5`, offset 0 → comb points 6+1 → column 7 and 6−1−2 → column 3: count 4, `5·4 = 5·2 + 10` -/
+example : magicCount 12 2 5 0 = 4 := by decide +kernel
 
 /-! ### Variable-density Poisson -/
 
